@@ -87,14 +87,12 @@ def generate(ctx):
     res = ctx.pmap(job, jobs)
     laws = res[0]
     vectors = []
-    nsim = 0
     for (kind, arg), r in zip(jobs[1:], res[1:]):
         vs = expand(r.emitted("@@"), r.emitted("@T"))
         if not vs:
             raise vlib.Inconclusive("PathScopeGen emitted nothing for %s %s" % (kind, arg))
         if kind == "sim":
             vs = [v for v in vs if len(v["segs"]) > maxlen]
-            nsim += len(vs)
         vectors.extend(vs)
     # the same name can be drawn by several simulation runs
     seen = set()
@@ -104,6 +102,7 @@ def generate(ctx):
         if k not in seen:
             seen.add(k)
             uniq.append(v)
+    nsim = sum(1 for v in uniq if len(v["segs"]) > maxlen)
     return uniq, laws, nsim
 
 
@@ -197,7 +196,8 @@ def run(ctx):
     vectors, laws, nsim = generate(ctx)
     events = evaluate(ctx, vectors)
     ok = judge(ctx, events)
-    esc = [e for e in events if e["esc"]]
+    # distinct concrete calls (different segment sequences can render to the same string) the model calls escaping
+    esc = {(e["comp"], e["op"], e["depth"], e["name"]) for e in events if e["esc"]}
     names = {(e["depth"], e["abs"], tuple(e["segs"])) for e in events}
     by_cls = {}
     for e in events:
@@ -215,7 +215,8 @@ def run(ctx):
                 "entry name as file/dir, DirStructure EnsureRelPath (top, child) / EnsureAbsPath (under the root, under its parent), "
                 "updater ScanStorage (under the storage, under its parent)) in a fresh sandbox, judged by TLC against spec/PathScope.tla; "
                 "names: ALL segment sequences of length <= %d (<= %d with a leading separator) over {.., ., empty, a, b, <root>, "
-                "<root>-other} against 2 root depths%s; non-trivial = the model says the name resolves outside the root" % (
+                "<root>-other} against 2 root depths%s; non-trivial = the model says the name resolves outside the root, "
+                "distinct = by (operation, depth, concrete name string)" % (
                     maxlen, maxlen_abs, " plus %d vectors from seeded random names of length %d..8" % (nsim, maxlen + 1) if nsim else ""),
         "accepted": ok, "names": len(names), "by_class": by_cls,
         "states": laws.distinct, "transitions": laws.generated,
